@@ -31,4 +31,108 @@ theorem applySubRule_empty_word (r : SubRule) (fuel : Nat) (hty : r.ruleType ≠
   apply applySubRule_no_match r (fuel + 1) _ none {} hty
   simp [inputMatchAt, inMatchAtLoop, Word.inB, Word.inBounds]
 
+
+/-! ## one substitution step of a basic rule rewrites exactly the matched run -/
+
+/-- what `X > t` does to the syllable in which `X` matched at `gi`: the run of `X` becomes the single segment `t` -/
+def rewriteRun (σ : Syll) (gi : Nat) (t : Seg) : Syll :=
+  { σ with segs := (Syll.removeN σ.segs (gi + 1) (σ.segLengthAt gi - 1)).set gi t }
+
+theorem segLengthAt_pos (σ : Syll) (gi : Nat) : 1 ≤ σ.segLengthAt gi := by
+  unfold Syll.segLengthAt; split <;> omega
+
+theorem removeN_keeps_prefix (segs : List Seg) (gi n : Nat) (h : gi < segs.length) : gi < (Syll.removeN segs (gi + 1) n).length := by
+  unfold Syll.removeN
+  simp only [List.length_append, List.length_take]
+  omega
+
+/-- **one step of `A > t`** (one input element of any kind that captured a segment, one plain IPA output, no
+    modifiers): the step returns, only the syllable of the match changes, in it only the matched run (replaced by `t`),
+    stress and tone stay, and the search resumes right after the new segment. -/
+theorem substitution_basic_step (r : SubRule) (w : Word) (sp : SegPos) (t : Seg) (inItem : Item) (σ : Syll) (b : Binds)
+    (next : Option SegPos)
+    (hin : r.input = [inItem]) (hout : r.output = [.ipa t none])
+    (hσ : w.sylls[sp.si]? = some σ) (hgi : sp.gi < σ.segs.length)
+    (hwf : ∀ τ ∈ w.sylls, τ.segs ≠ []) :
+    let w' := setSyll w sp.si (rewriteRun σ sp.gi t)
+    substitution r w [.segment sp none] next b =
+      .ok (w', (match next with | some _ => some (({ si := sp.si, gi := sp.gi } : SegPos).increment w') | none => none), b) := by
+  intro w'
+  have hlen : sp.si < w.sylls.length := by
+    rcases List.getElem?_eq_some_iff.mp hσ with ⟨h, _⟩; exact h
+  have hrep : (List.replicate w.sylls.length (0 : Int))[sp.si]? = some 0 := by
+    rw [List.getElem?_replicate]; simp [hlen]
+  have hkeep := removeN_keeps_prefix σ.segs sp.gi (σ.segLengthAt sp.gi - 1) hgi
+  unfold substitution
+  simp only [hin, hout, List.length_singleton]
+  -- the single (input, output) pair
+  have hpairs : substPairs r 1 1 0 [inItem] [.ipa t none] [.segment sp none]
+      { w := w, tlc := List.replicate w.sylls.length 0, last := { si := 0, gi := 0 }, b := b } =
+      .ok { w := w', tlc := (List.replicate w.sylls.length (0 : Int)).set sp.si (0 + (1 - (σ.segLengthAt sp.gi : Int))),
+            last := bump sp (1 - (σ.segLengthAt sp.gi : Int)) 1 1 0, b := b } := by
+    simp [substPairs, substStep, adjust, tlcGet, hrep, getSyll, hσ, Syll.replaceSegment, hkeep, tlcAdd, w', rewriteRun]
+  rw [hpairs]
+  simp only [Outcome.bind_ok, Nat.lt_irrefl, if_false, Outcome.pure_eq]
+  -- the cursor: `bump` with a non-positive length change and equal lengths leaves it on the new segment
+  have hbump : bump sp (1 - (σ.segLengthAt sp.gi : Int)) 1 1 0 = sp := by
+    have hL : 1 ≤ σ.segLengthAt sp.gi := segLengthAt_pos σ sp.gi
+    unfold bump
+    have : ¬ (1 - (σ.segLengthAt sp.gi : Int) > 0) := by omega
+    rw [if_neg this]; rfl
+  rw [hbump]
+  -- the last syllable of the result is not empty, so nothing is popped
+  have hne' : (rewriteRun σ sp.gi t).segs ≠ [] := by
+    intro h
+    have h0 : (rewriteRun σ sp.gi t).segs.length = 0 := by rw [h]; rfl
+    simp only [rewriteRun, List.length_set] at h0
+    omega
+  have hnn : w'.sylls ≠ [] := by
+    intro h
+    have h0 : w'.sylls.length = 0 := by rw [h]; rfl
+    simp only [w', setSyll, List.length_set] at h0
+    omega
+  have hm : w'.sylls.getLast hnn ∈ w'.sylls := List.getLast_mem hnn
+  have hl2 : (w'.sylls.getLast hnn).segs.isEmpty = false := by
+    have hm' : w'.sylls.getLast hnn ∈ w.sylls.set sp.si (rewriteRun σ sp.gi t) := hm
+    rcases List.mem_or_eq_of_mem_set hm' with h | h
+    · have := hwf _ h
+      cases hs : (w'.sylls.getLast hnn).segs with
+      | nil => exact absurd hs this
+      | cons a as => rfl
+    · rw [h]
+      cases hs : (rewriteRun σ sp.gi t).segs with
+      | nil => exact absurd hs hne'
+      | cons a as => rfl
+  rw [List.getLast?_eq_some_getLast hnn]
+  simp only [hl2, Bool.false_eq_true, if_false]
+  cases next <;> rfl
+
+/-- the frame of that step: every other syllable is untouched, the rewritten one keeps its stress and tone, the
+    segments before the match stay, the matched run becomes `t`, and what followed the run follows `t` -/
+theorem rewriteRun_frame (σ : Syll) (gi : Nat) (t : Seg) (h : gi < σ.segs.length) :
+    (rewriteRun σ gi t).stress = σ.stress ∧ (rewriteRun σ gi t).tone = σ.tone ∧
+    (rewriteRun σ gi t).segs = σ.segs.take gi ++ t :: σ.segs.drop (gi + σ.segLengthAt gi) := by
+  refine ⟨rfl, rfl, ?_⟩
+  have hL := segLengthAt_pos σ gi
+  unfold rewriteRun Syll.removeN
+  simp only
+  have e1 : gi + 1 + (σ.segLengthAt gi - 1) = gi + σ.segLengthAt gi := by omega
+  rw [e1, List.take_succ_eq_append_getElem h, List.append_assoc]
+  have hl : (σ.segs.take gi).length = gi := by simp; omega
+  rw [List.set_append]
+  simp [hl]
+
+theorem setSyll_frame (w : Word) (i : Nat) (σ' : Syll) :
+    (setSyll w i σ').sylls.length = w.sylls.length ∧ ∀ j, j ≠ i → (setSyll w i σ').sylls[j]? = w.sylls[j]? := by
+  refine ⟨by simp [setSyll], ?_⟩
+  intro j hj
+  simp [setSyll, List.getElem?_set_ne (Ne.symm hj)]
+
+/-- the hypotheses are met, e.g. `a > e` matching the long `a` of `t aː` -/
+example :
+    let a : Seg := { root := 3#8, manner := 192#8, laryngeal := 4#8, place := some 40976#16 }
+    let e : Seg := { root := 3#8, manner := 192#8, laryngeal := 4#8, place := some 41096#16 }
+    let tt : Seg := { root := 4#8, manner := 0#8, laryngeal := 0#8, place := some 16896#16 }
+    (rewriteRun { segs := [tt, a, a] } 1 e).segs = [tt, e] := by decide
+
 end Asca.C03
